@@ -77,6 +77,7 @@ type Stream struct {
 	w      io.Writer
 	framec chan []byte
 	closec chan struct{}
+	donec  chan struct{} // closed when the log loop has returned
 }
 
 // NewStream initializes a Stream with an io.Writer to log requests and
@@ -87,6 +88,7 @@ func NewStream(w io.Writer) *Stream {
 		w:      w,
 		framec: make(chan []byte),
 		closec: make(chan struct{}),
+		donec:  make(chan struct{}),
 	}
 
 	go s.loop()
@@ -95,6 +97,8 @@ func NewStream(w io.Writer) *Stream {
 }
 
 func (s *Stream) loop() {
+	defer close(s.donec)
+
 	for {
 		select {
 		case f := <-s.framec:
@@ -116,6 +120,16 @@ func (s *Stream) Close() error {
 	return nil
 }
 
+// send hands a frame to the log loop. Once the stream is closed nobody
+// receives frames any more: the frame is dropped, so that reading a body that
+// is still in flight (and logging further messages) does not block forever.
+func (s *Stream) send(f []byte) {
+	select {
+	case s.framec <- f:
+	case <-s.donec:
+	}
+}
+
 func newFrame(id string, ft FrameType, mt MessageType, plen uint32) []byte {
 	f := make([]byte, 0, 10+plen)
 	f = append(f, byte(ft), byte(mt))
@@ -134,7 +148,7 @@ func (s *Stream) sendHeader(id string, mt MessageType, key, value string) {
 	f = append(f, key[:kl]...)
 	f = append(f, value[:vl]...)
 
-	s.framec <- f
+	s.send(f)
 }
 
 func (s *Stream) sendData(id string, mt MessageType, i uint32, terminal bool, b []byte, bl int) {
@@ -149,7 +163,7 @@ func (s *Stream) sendData(id string, mt MessageType, i uint32, terminal bool, b 
 	f = append(f, byte(bl>>24), byte(bl>>16), byte(bl>>8), byte(bl))
 	f = append(f, b[:bl]...)
 
-	s.framec <- f
+	s.send(f)
 }
 
 // LogRequest writes an http.Request to Stream with an id unique for the request / response pair.
